@@ -393,16 +393,18 @@ Definition hex_to_binary (b : buf) : buf * bool :=
     let b3 := set_len b2 (n / 2) in
     (poke b3 (blen b3) 0%N, true).
 
-(* grow_buff (len * 2) (result ignored), then back to front data[2i+1], data[2i] from data[i]
+(* if (!grow_buff (len * 2)) return FALSE; then back to front data[2i+1], data[2i] from data[i]
    (stores go to indices >= 2i, reads still to come are at indices < i) *)
 Definition binary_to_hex (b : buf) (upper : bool) : buf * bool :=
   if bstatic b then (b, false)
   else if blen b =? 0 then (b, true)
   else
-    let b1 := fst (grow_buff b (blen b * 2)) in
-    let b2 := blit b1 0 (bin_to_hex upper (firstn (blen b1) (cells b1))) in
-    let b3 := set_len b2 (blen b2 * 2) in
-    (poke b3 (blen b3) 0%N, true).
+    let (b1, ok) := grow_buff b (blen b * 2) in
+    if negb ok then (b1, false)
+    else
+      let b2 := blit b1 0 (bin_to_hex upper (firstn (blen b1) (cells b1))) in
+      let b3 := set_len b2 (blen b2 * 2) in
+      (poke b3 (blen b3) 0%N, true).
 
 (* second component: Some true = WBXML_OK, Some false = an error code, None = out of fuel *)
 Definition decode_base64 (b : buf) : buf * option bool :=
@@ -470,6 +472,7 @@ Inductive ret :=
 | RLen (n : N)
 | RCmp (c : comparison)
 | RWords (ws : list (list N))
+| RNull                            (* a creating function returned NULL (allocation refused; see BufferAlloc.v) *)
 | RFuel.                           (* a loop of the model ran out of fuel: never equal to a specified result *)
 
 Definition rob (x : buf * option bool) : buf * ret :=
